@@ -265,6 +265,13 @@ def prescribed (ncols : Nat) (lhs0 : Option Vec) (cons : Option Cons) (j : Nat) 
   | some (.mask m) => if m.getD j false then some ((lhs0.getD (zeros ncols)).getD j 0) else none
   | some (.vals v) => (v.getD j none)
 
+/-- `a` and `b` have the length of the mask and agree on the entries where the mask is false (constrained entries) -/
+def agreeOff : List Bool → Vec → Vec → Prop
+  | [], [], [] => True
+  | true :: m, _ :: as, _ :: bs => agreeOff m as bs
+  | false :: m, a :: as, b :: bs => a = b ∧ agreeOff m as bs
+  | _, _, _ => False
+
 /-! ## `System.solve` -/
 
 /-- one `next(m)` on the method's iterator -/
